@@ -20,7 +20,7 @@ func VerifC04Tampered() {
 	blocks := vstub.NewBlocks(nil)
 	prov := vstub.NewProvider()
 	w := vstub.NewIdentity("w", prov)
-	a, env := openAC("a", blocks, vstubodb.Writers("id-a", "id-w"))
+	a, env := openAC("a", blocks, vstubodb.Writers(vstub.IDOf("a"), vstub.IDOf("w")))
 	if a == nil {
 		return
 	}
@@ -135,7 +135,7 @@ func VerifC04ForeignChain() {
 	blocks := vstub.NewBlocks(nil)
 	prov := vstub.NewProvider()
 	w := vstub.NewIdentity("w", prov)
-	ac := vstubodb.Writers("id-a", "id-w")
+	ac := vstubodb.Writers(vstub.IDOf("a"), vstub.IDOf("w"))
 	a, env := openAC("a", blocks, ac)
 	if a == nil {
 		return
